@@ -286,9 +286,52 @@ def replay_identity(objs):
     return out
 
 
+def replay_complex(objs):
+    """Transformations with genuinely complex entries (the library supports them: I, J, the projective line over C) acting on
+    objects stored with real float / integer / complex coordinates: the group laws, which need no oracle -
+    (s * t) * x = s * (t * x), t.inverse() * (t * x) = x, (t ** 2) * x = t * (t * x), (t ** -1) * (t * x) = x."""
+    g = import_geometer()
+    out = []
+    for dim, x0, canon in objs:
+        n = dim + 1
+        A = np.arange(n * n).reshape(n, n) % 3 + np.eye(n)
+        B = (np.arange(n * n).reshape(n, n) * 2 + 1) % 5 - 2.0
+        S = np.eye(n) + np.triu(np.ones((n, n)), 1) * (2 - 1j)
+        for tname, M in (("real+i*real", A + 1j * B), ("unitriangular-complex", S)):
+            if abs(np.linalg.det(M)) < 1e-6:
+                continue
+            t, s_ = g.Transformation(M), g.Transformation(S.T + 0.5j * np.eye(n))
+            for dname, dt in (("float64", float), ("int", None), ("complex128", complex)):
+                try:
+                    x = build_any(x0, dim)
+                    if dt is not None:
+                        x = x.copy()
+                        x.array = np.asarray(x.array).astype(dt)
+                    cls_of = lambda o: np.asarray(coords_of(o) if abs_kind(o) in ("point", "line", "plane", "line3") else o.array, dtype=complex)  # noqa: E731
+                    def same(a, b):
+                        a, b = cls_of(a), cls_of(b)
+                        if a.shape != b.shape:
+                            return False
+                        if a.ndim == 1 or abs_kind(x) in ("quadric", "dualquadric", "line3"):
+                            return same_class(a.reshape(-1), b.reshape(-1), 1e-6)
+                        return all(same_class(u.reshape(-1), v.reshape(-1), 1e-6) for u, v in zip(a.reshape((-1, a.shape[-1])), b.reshape((-1, b.shape[-1]))))
+                    y = t * x
+                    laws = [("(s*t)*x == s*(t*x)", (s_ * t) * x, s_ * y), ("t.inverse()*(t*x) == x", t.inverse() * y, x),
+                            ("(t**2)*x == t*(t*x)", (t ** 2) * x, t * y), ("(t**-1)*(t*x) == x", (t ** -1) * y, x)]
+                    for lname, lhs, rhs in laws:
+                        if not same(lhs, rhs):
+                            out.append(dict(site=f"{x0['k']}/{dim}D/complex-transformation/{tname}/{dname}-coordinates", stratum="general",
+                                            case={"d": dim, "x": x0, "law": lname}, expected=lname, observed={"lhs": str(cls_of(lhs).tolist())[:200], "rhs": str(cls_of(rhs).tolist())[:200]}))
+                            break
+                except Exception as e:  # noqa: BLE001
+                    out.append(dict(site=f"{x0['k']}/{dim}D/complex-transformation/{tname}/{dname}-coordinates", stratum="general", case={"d": dim, "x": x0},
+                                    expected="the group laws", observed=f"raised {type(e).__name__}: {e}"))
+    return out
+
+
 def _work(job):
     try:
-        return {"rec": replay, "coll": replay_collections, "tcoll": replay_tcoll, "id": replay_identity}[job[0]](job[1])
+        return {"rec": replay, "coll": replay_collections, "tcoll": replay_tcoll, "id": replay_identity, "cplx": replay_complex}[job[0]](job[1])
     except Exception:  # noqa: BLE001
         import traceback
 
@@ -350,6 +393,9 @@ def run(ctx: Ctx):
     for x in recs:
         objs[(x["d"], json.dumps(x["x"]))] = (x["d"], x["x"], canon_np(x["x"]))
     jobs.append(("id", list(objs.values())))
+    ov = [o for o in objs.values() if o[1]["k"] in ("point", "line", "plane", "segment", "polygon", "quadric")]
+    for i in range(0, len(ov), 6):
+        jobs.append(("cplx", ov[i:i + 6]))
     with Pool(16) as pool:
         results = pool.map(_work, jobs, chunksize=1)
     for res in results:
